@@ -39,7 +39,7 @@ KEY_NESTED = 'C18-function-nested-in-same-function-unclosed-parenthesis'
 
 _PAIRS = ['+ then *', '+ then /', '- then *', '- then /', '* then +', '* then -', '/ then +', '/ then -',
           '- then +', '- then -', '+ then -', '/ then *', '/ then /', '* then /']
-REQUIRED_CLASSES = (['int-node-from-expression-with-whole-exact-result', 'definedness-by-state:declared-value-later', 'definedness-by-state:absent-nothing-defined-yet', 'definedness-by-state:defined-further-down', 'equality-tolerance:inside', 'equality-tolerance:outside', 'equality-tolerance:other-unit', 'function-argument-in-dimensionless-unit'] + ['function-argument:' + f for f in ('exp', 'log', 'log10', 'sin', 'cos', 'tan', 'sqrt', 'pow-exponent', 'pow-base')] +
+REQUIRED_CLASSES = (['inclusive-comparison:negative', 'inclusive-comparison:equal', 'int-node-from-expression-with-whole-exact-result', 'definedness-by-state:declared-value-later', 'definedness-by-state:absent-nothing-defined-yet', 'definedness-by-state:defined-further-down', 'equality-tolerance:inside', 'equality-tolerance:outside', 'equality-tolerance:other-unit', 'function-argument-in-dimensionless-unit'] + ['function-argument:' + f for f in ('exp', 'log', 'log10', 'sin', 'cos', 'tan', 'sqrt', 'pow-exponent', 'pow-base')] +
                     ['num-op:' + o for o in '+-*/'] + ['num-par', 'num-ref', 'num-lit', 'num-negative-literal'] +
                     ['num-fn:' + f for f in ('exp', 'pow', 'log', 'log10', 'sqrt', 'sin', 'cos', 'tan')] +
                     ['num-pair:' + p for p in _PAIRS] +
@@ -117,6 +117,7 @@ def cases(rng, tier, shard, nshards, ctx):
             yield c18_modref.gen_eqtol(rng)
             yield c18_modref.gen_defstate(rng)
             yield c18_modref.gen_intexpr(rng)
+            yield c18_modref.gen_cmpneg(rng)
 
 
 def gen_num(rng):
@@ -282,6 +283,9 @@ def run_case(case, ctx):
         elif case['t'] == 'eqtol':
             from vt.props import c18_modref
             out = c18_modref.run_eqtol(case, ctx, parse_text)
+        elif case['t'] == 'cmpneg':
+            from vt.props import c18_modref
+            out = c18_modref.run_cmpneg(case, ctx, parse_text)
         elif case['t'] == 'intexpr':
             from vt.props import c18_modref
             out = c18_modref.run_intexpr(case, ctx, parse_text)
